@@ -581,7 +581,7 @@ example : (writeAll ({} : CkptFile Nat Nat) [[1, 2, 3], [4], [5, 6, 7, 8], [9, 9
 example : (writeAll ({} : CkptFile Nat Nat) [[1, 2, 3], [4], [5, 6, 7, 8]]).ckpt = some [5, 6, 7, 8] := by
   decide
 example : (writeAll (writeHeader ({ flow := some 3 } : CkptFile Nat Nat) 1 2) [[1, 2, 3], [4]])
-    = { config := some 1, flow := some 3, ckpt := some [4] } := by decide
+    = { config := some 1, flow := some 3, ckpt := some [4] } := rfl
 
 /-- cadence 1: three iterations, checkpoints at 1, 2, 3 and the forced one -/
 example : (logOf (run kitN cfgN 0 5 stepsN)).map (·.iter) = [1, 2, 3, 3] := by decide
@@ -594,7 +594,7 @@ example : (logOf (run kitN cfgN2 0 5 (stepsN.take 1))).map (·.iter) = [] ∧
     (logOf (run kitN cfgN2 0 5 (stepsN.take 3))).map (·.iter) = [2] := by decide
 /-- the hypotheses of `cadence`, `last_ckpt_is_current` and `file_resume` are met -/
 example : ∃ r, run kitN cfgN2 0 5 stepsN = .done r ∧ cfgN2.every = some 2 := ⟨_, rfl, rfl⟩
-example : ∃ cks, run kitN cfgN2 0 5 (stepsN.take 3) = .interrupted cks ∧ cks ≠ [] ∧ 3 ≤ stepsN.length :=
-  ⟨_, rfl, by simp, by decide⟩
+example : ∃ cks, run kitN cfgN2 0 5 (stepsN.take 3) = .interrupted cks ∧ cks.length = 1 ∧ 3 ≤ stepsN.length :=
+  ⟨_, rfl, rfl, by decide⟩
 
 end C12
